@@ -103,6 +103,10 @@ def build(rng, tier, schemas):
                 lines.append("mktrack %s %s" % (t, G.snap_txt(x))); meta.append(("mk", t))
             if rng.random() < 0.15:
                 lines.append("v1.rmperf b"); meta.append(("rmperf", "b"))
+            for t in TRACKS:
+                # a grid adjusted in Engine: default grid != adjusted grid (no library call produces this state)
+                if rng.random() < 0.4:
+                    lines.append("v1.skewgrid %s" % t); meta.append(("skew", t))
             slots = [("hot_cue_at", 0), ("hot_cue_at", 7), ("loop_at", 0), ("loop_at", 7)]
             for (l, m) in obs_lines(slots):
                 lines.append(l); meta.append(("obs", 0) + m)
@@ -199,7 +203,7 @@ def tie(ctx):
     rng = random.Random(ctx.seed * 6151 + 606)
     schemas = G.QUICK_SCHEMAS if ctx.tier == "quick" else G.SCHEMAS
     scripts = build(rng, ctx.tier, schemas)
-    hres = runner.run_harness([s[1] for s in scripts], watchdog=30)
+    hres, retried = G.run_harness_robust(runner, [s[1] for s in scripts], watchdog=30)
     mres = runner.run_model([s[1] for s in scripts])
     spec_lines = []
     for (sch, lines, meta) in scripts:
@@ -212,7 +216,7 @@ def tie(ctx):
     divergences, violations = [], []
     hist = {"steps": 0, "set_ok": 0, "set_throw": {}, "spec_reject": 0, "setter_stricter_than_spec": {},
             "by_field": {}, "slot_indices": {}, "getter_eq_snapshot_checks": 0, "frame_checks": 0,
-            "other_track_checks": 0, "nan_values": 0, "perf_row_missing_scripts": 0}
+            "other_track_checks": 0, "nan_values": 0, "perf_row_missing_scripts": 0, "watchdog_retries": retried}
     distinct = set()
     evals = 0
     put_lines, put_meta = [], []
@@ -224,6 +228,7 @@ def tie(ctx):
                                     "model": mout[i][:400]})
         if any(m and m[0] == "rmperf" for m in meta):
             hist["perf_row_missing_scripts"] += 1
+        hist["skewed_grid_tracks"] = hist.get("skewed_grid_tracks", 0) + sum(1 for m in meta if m and m[0] == "skew")
         # observations per step on the real library's answers
         obs = {}
         sets = {}
@@ -341,7 +346,7 @@ def tie(ctx):
         "evaluations": evals,
         "distinct_nontrivial": len(distinct),
         "rule": "1.x: setter histories over 3 tracks (one fully analysed, one minimal, one random; in some scripts the "
-                "PerformanceData row of one track is deleted first), every setter incl. slot setters at indices 0..7 and "
+                "PerformanceData row of one track is deleted first, and the default beat grid of some tracks is made different from the adjusted one, as Engine does), every setter incl. slot setters at indices 0..7 and "
                 "out of range, values from the C01 classes; after every step all 26 getters, slot getters, filename / "
                 "extension and snapshot() of all three tracks; model vs implementation line by line; lens laws "
                 "(get-after-set = Spec.normField, frame, other tracks, getter = snapshot field, snapshot after = "
